@@ -265,5 +265,12 @@ func (setup *SetupServerController) handleKeyExchange(in util.Container) (util.C
 
 func (setup *SetupServerController) reset() {
 	setup.step = PairStepWaiting
-	// TODO: reset session
+
+	// The next exchange gets new keys (salt, B). Otherwise the verify and key exchange
+	// requests of an exchange could be sent again later on the same connection.
+	if session, err := NewSetupServerSession(setup.device.Name(), setup.device.Pin()); err == nil {
+		setup.session = session
+	} else {
+		log.Info.Println(err)
+	}
 }
